@@ -155,7 +155,22 @@ func foldValue(e ssa.Value, v map[ssa.Value]bool, c int, depth int) (pval, bool)
 		return pval{i: truncInt(in.i, x.Type())}, true
 	case *ssa.ChangeType:
 		return foldValue(x.X, v, c, depth+1)
+	case *ssa.Index:
+		// constant table loaded as a whole and indexed
+		if ld, ok := x.X.(*ssa.UnOp); ok && ld.Op == token.MUL {
+			if g, ok := ld.X.(*ssa.Global); ok {
+				return foldTable(g, x.Index, v, c, depth)
+			}
+		}
 	case *ssa.UnOp:
+		if x.Op == token.MUL {
+			// element of a constant table: tbl[i]
+			if ia, ok := x.X.(*ssa.IndexAddr); ok {
+				if g, ok := ia.X.(*ssa.Global); ok {
+					return foldTable(g, ia.Index, v, c, depth)
+				}
+			}
+		}
 		if x.Op == token.NOT {
 			in, ok := foldValue(x.X, v, c, depth+1)
 			if ok && in.isBool {
@@ -396,4 +411,19 @@ func condMentions(cond ssa.Value, v ssa.Value, depth int) bool {
 		}
 	}
 	return false
+}
+
+// foldProg gives foldValue access to the program's constant tables (set by RunCursor).
+var foldProg *Prog
+
+// foldTable: g[idx] for a constant table g (Prog.ConstTable); an index outside the array is "unknown" (it would panic).
+func foldTable(g *ssa.Global, idx ssa.Value, v map[ssa.Value]bool, c int, depth int) (pval, bool) {
+	if foldProg == nil {
+		return pval{}, false
+	}
+	i, ok := foldValue(idx, v, c, depth+1)
+	if !ok || i.isBool {
+		return pval{}, false
+	}
+	return tableElem(g, i.i)
 }
